@@ -41,7 +41,8 @@ pub fn run(ctx: &Ctx) -> Value {
             if k < 0 || k > u32::MAX as i64 { continue; }
             let mo = Months::new(k as u32);
             tw.emit(ev("add_months", json!({"n": n, "k": big(k as i128)}), || json!(odn(d.checked_add_months(mo)))));
-            tw.emit(ev("sub_months", json!({"n": n, "k": big(k as i128)}), || json!(odn(d.checked_sub_months(mo)))));
+            // (the count as Months::as_u32 reports it)
+            tw.emit(ev("sub_months", json!({"n": n, "k": big(mo.as_u32() as i128)}), || json!(odn(d.checked_sub_months(mo)))));
             counts[0] += 2;
         }
         // field replacement
